@@ -218,6 +218,11 @@ func runC01(c *fw.Ctx) {
 		c.Case(func(k *fw.K) { c01Rearmed(k) })
 	}
 
+	// ---------- a gradient of one back-propagated graph is used as DATA by a later graph ----------
+	for i := 0; i < c.Pick(500, 10000); i++ {
+		c.Case(func(k *fw.K) { c01GradientAsData(k) })
+	}
+
 	// ---------- family 3: deep ladders / fan-out chains (bounded-application clause) ----------
 	depths := []int{8, 16, 24, 32, 48, 64}
 	if !c.Quick() {
@@ -758,5 +763,152 @@ func c01MallocTwin(k *fw.K) {
 			k.Failf("bounded-application clause (hook-free twin): BackPropagate on a ladder of depth %d made %d allocations = %.0f x the per-edge cost measured at depth 3 (%.1f allocations/edge x %d edges); polynomial work stays near 1x, a per-path walk costs 2^depth/depth", d, m, ratio, perEdge, E)
 			return
 		}
+	}
+}
+
+// c01GradientAsData: graph 1 over the tracked leaves a and b is back-propagated; d = f(a.Gradient(), b.Gradient()) for a
+// value-only f (the gradient itself, a sum, a scaling, a reshaping, a transposition, a Concat, a reduction) serves as a
+// constant of graph 2 over a fresh leaf c. Back-propagating graph 2 must give c the derivative with d held constant and
+// must leave the gradients of graph 1 as they were: graph 2 contains neither a nor b.
+func c01GradientAsData(k *fw.K) {
+	r := k.Rng
+	shape := RandShape(r, 1, 3, 3)
+	av, bv := Shuffled(r, Unique(r, shape, 0.3, 1.5)), Shuffled(r, Unique(r, shape, 0.4, 1.7))
+	g1 := ref.Prog{{Op: "leaf", Shape: shape, Data: av.Data, Tracked: true}, {Op: "leaf", Shape: shape, Data: bv.Data, Tracked: true},
+		{Op: "mul", In: []int{0, 1}}, {Op: "pow", In: []int{0}, F: 2}, {Op: "add", In: []int{2, 3}}}
+	switch r.Intn(6) {
+	case 1:
+		g1 = append(g1, ref.Instr{Op: "sin", In: []int{4}}, ref.Instr{Op: "mul", In: []int{5, 1}})
+	case 2:
+		g1 = append(g1, ref.Instr{Op: "scale", In: []int{4}, F: -1.5})
+	case 3: // graphs whose rules involve no operand value: every gradient is computed from the seed alone
+		g1 = append(g1[:2], ref.Instr{Op: "scale", In: []int{0}, F: 3}, ref.Instr{Op: "add", In: []int{2, 1}})
+	case 4:
+		g1 = append(g1[:2], ref.Instr{Op: "scale", In: []int{1}, F: -2}, ref.Instr{Op: "sub", In: []int{0, 2}}, ref.Instr{Op: "add", In: []int{3, 0}},
+			ref.Instr{Op: "sumalong", In: []int{4}, Dim: r.Intn(len(shape))})
+	case 5:
+		g1 = append(g1[:2], ref.Instr{Op: "concat", In: []int{0, 1, 0}, Dim: r.Intn(len(shape))}, ref.Instr{Op: "scale", In: []int{2}, F: 0.5},
+			ref.Instr{Op: "flatten", In: []int{3}, Dim: 0})
+	}
+	root1 := len(g1) - 1
+	vals1, err := g1.Eval()
+	if err != nil {
+		k.Failf("harness: %v", err)
+		return
+	}
+	var ts1 []tensor.Tensor
+	if pn := call(func() {
+		if ts1, err = rt.Run(g1); err == nil {
+			err = tensor.BackPropagate(ts1[root1])
+		}
+	}); pn != nil || err != nil {
+		k.Failf("graph 1: panic=%v err=%v", pn, err)
+		return
+	}
+	want1, scale1 := g1.GradS(vals1, root1, nil, ref.RuleSum)
+	if msg := checkGradsScaled(ts1, want1, scale1, "graph 1"); msg != "" {
+		k.Failf("%s", msg)
+		return
+	}
+	ga, gb := ts1[0].Gradient(), ts1[1].Gradient()
+	// d: computed from the gradient tensors by the library, and from their reference values by the reference
+	how := r.Intn(8)
+	var chain []ref.Instr
+	switch how {
+	case 0: // the gradient tensor itself
+	case 1:
+		chain = []ref.Instr{{Op: "add", In: []int{0, 1}}}
+	case 2:
+		chain = []ref.Instr{{Op: "scale", In: []int{0}, F: 0.5}}
+	case 3:
+		chain = []ref.Instr{{Op: "reshape", In: []int{0}, Shape: append([]int(nil), shape...)}}
+	case 4:
+		if len(shape) >= 2 {
+			chain = []ref.Instr{{Op: "transpose", In: []int{0}}, {Op: "transpose", In: []int{2}}}
+		} else {
+			chain = []ref.Instr{{Op: "sub", In: []int{0, 1}}}
+		}
+	case 5:
+		chain = []ref.Instr{{Op: "concat", In: []int{0, 1}, Dim: r.Intn(len(shape))}}
+	case 6:
+		chain = []ref.Instr{{Op: "add", In: []int{0, 1}}, {Op: "scale", In: []int{2}, F: 2}, {Op: "sub", In: []int{3, 1}}}
+	case 7:
+		chain = []ref.Instr{{Op: "unsqueeze", In: []int{0}, Dim: 0}, {Op: "sumalong", In: []int{2}, Dim: 0}}
+	}
+	dts, dvs := []tensor.Tensor{ga, gb}, []*ref.T{want1[0], want1[1]}
+	for _, in := range chain {
+		xs, xv := make([]tensor.Tensor, len(in.In)), make([]*ref.T, len(in.In))
+		for q, j := range in.In {
+			xs[q], xv[q] = dts[j], dvs[j]
+		}
+		nv, err := ref.Apply(in, xv)
+		if err != nil {
+			k.Failf("harness: %s: %v", in.Op, err)
+			return
+		}
+		var nt tensor.Tensor
+		if pn := call(func() { nt, err = rt.Exec(in, xs) }); pn != nil || err != nil {
+			k.Failf("%s over gradient tensors: panic=%v err=%v", in.Op, pn, err)
+			return
+		}
+		dts, dvs = append(dts, nt), append(dvs, nv)
+	}
+	d, dv := dts[len(dts)-1], dvs[len(dvs)-1]
+	cv := Shuffled(r, Unique(r, dv.Shape, 0.2, 1.2))
+	g2 := ref.Prog{{Op: "leaf", Shape: dv.Shape, Data: cv.Data, Tracked: true}, {Op: "leaf", Shape: dv.Shape, Data: dv.Data}, {Op: "mul", In: []int{0, 1}}}
+	if r.Intn(2) == 0 {
+		g2 = append(g2, ref.Instr{Op: "add", In: []int{2, 1}}, ref.Instr{Op: "pow", In: []int{3}, F: 2})
+	}
+	root2 := len(g2) - 1
+	vals2, err := g2.Eval()
+	if err != nil {
+		k.Failf("harness: %v", err)
+		return
+	}
+	k.Case = map[string]any{"family": "a gradient of graph 1 used as data by graph 2", "graph1": g1, "derivation": chain, "graph2": g2}
+	k.Key("gradient-as-data/%d/%s/%d-%d", how, shapeKey(shape), len(g1), len(g2))
+	k.Count("gradient_as_data_cases", 1)
+	// Anything computed from a gradient tensor is untracked (C08), so graph 2 as it stands has an untracked root: in half the
+	// cases d is first made a fresh constant (ResetGradContext(false)) and graph 2 is an ordinary graph over c, whose gradient
+	// is decided; in the other half only graph 1 is judged - whatever BackPropagate(root 2) does, it does not contain a or b.
+	fresh := r.Intn(2) == 0
+	if fresh {
+		d.ResetGradContext(false)
+	}
+	k.Key("gradient-as-data/fresh-constant=%v", fresh)
+	ts2 := make([]tensor.Tensor, len(g2))
+	ts2[0], ts2[1] = rt.MustLeaf(cv, true), d
+	if pn := call(func() {
+		for i := 2; i < len(g2) && err == nil; i++ {
+			xs := make([]tensor.Tensor, len(g2[i].In))
+			for q, j := range g2[i].In {
+				xs[q] = ts2[j]
+			}
+			ts2[i], err = rt.Exec(g2[i], xs)
+		}
+		if err == nil {
+			err = tensor.BackPropagate(ts2[root2])
+		}
+	}); pn != nil || err != nil {
+		k.Failf("graph 2 (a constant computed from gradients of graph 1): panic=%v err=%v", pn, err)
+		return
+	}
+	want2, scale2 := g2.GradS(vals2, root2, nil, ref.RuleSum)
+	if !(maxAbsAll(want2[0]) < 1e8) {
+		k.Count("cases_skipped_ill_conditioned", 1)
+		return
+	}
+	if fresh {
+		if msg := checkGradsScaled(ts2, want2, scale2, "graph 2, whose constant (tensor 1) was computed from gradients of graph 1 and then made a fresh constant"); msg != "" {
+			k.Failf("%s", msg)
+			return
+		}
+	}
+	if ts1[0].Gradient() != ga || ts1[1].Gradient() != gb {
+		k.Failf("back-propagating graph 2 replaced a gradient of graph 1, which it does not contain")
+		return
+	}
+	if msg := checkGradsScaled(ts1, want1, scale1, "graph 1 after graph 2, whose constant was computed from gradients of graph 1, was back-propagated"); msg != "" {
+		k.Failf("%s", msg)
 	}
 }
